@@ -219,6 +219,8 @@ impl PtraceDumper {
         {
             soft_errors.push(InitError::EnumerateThreadsFailed(Box::new(e)));
         }
+        #[cfg(feature = "verif-hooks")]
+        crate::linux::verif_hooks::fire(crate::linux::verif_hooks::Point::ThreadsEnumerated);
 
         // Same with mappings -- Some information is still better than no information!
         if let Err(e) = self.enumerate_mappings() {
@@ -246,6 +248,8 @@ impl PtraceDumper {
         use DumperError::PtraceAttachError as AttachErr;
 
         let pid = nix::unistd::Pid::from_raw(child);
+        #[cfg(feature = "verif-hooks")]
+        crate::linux::verif_hooks::fire(crate::linux::verif_hooks::Point::BeforeAttach(child));
         // This may fail if the thread has just died or debugged.
         ptrace::attach(pid).map_err(|e| AttachErr(child, e))?;
         loop {
@@ -306,6 +310,8 @@ impl PtraceDumper {
                 return Err(DumperError::DetachSkippedThread(child));
             }
         }
+        #[cfg(feature = "verif-hooks")]
+        crate::linux::verif_hooks::fire(crate::linux::verif_hooks::Point::AfterAttach(child, true));
         Ok(())
     }
 
@@ -328,6 +334,8 @@ impl PtraceDumper {
         });
 
         self.threads_suspended = true;
+        #[cfg(feature = "verif-hooks")]
+        crate::linux::verif_hooks::fire(crate::linux::verif_hooks::Point::ThreadsSuspended);
 
         failspot::failspot!(<crate::FailSpotName>::SuspendThreads soft_errors.push(DumperError::PtraceAttachError(1234, nix::Error::EPERM)))
     }
